@@ -119,6 +119,9 @@ def _run_contract2(contract, mode, size, extra_posts, values, want_paths, exclud
         pre = list(pre) + [bnot(kf(ctx))]
     if only is not None:
         pre = list(pre) + [only(ctx)]
+    for hid, obj in list(st.heap.items()):
+        if isinstance(obj, dict) and not obj.get('__local__', False) and '__declared__' not in obj:
+            obj['__declared__'] = frozenset(k for k in obj if not k.startswith('__'))
     pre = [p for p in pre if p is not True]
     if any(p is False for p in pre):
         return [], dict(paths=0, vacuous=True)
@@ -128,6 +131,8 @@ def _run_contract2(contract, mode, size, extra_posts, values, want_paths, exclud
                  nf_arrays=contract.nf_arrays, modifies=contract.modifies(st, ctx))
     eng.classes = {cn: {m.name: m for m in cd.body if hasattr(m, 'name')} for cn, cd in mod.classes.items()}
     eng.config = getattr(contract, 'config', 'fallback')
+    if getattr(contract, 'unroll_bound', None) is not None:
+        eng.unroll_bound = contract.unroll_bound
     # parameters with defaults that the contract did not bind
     names = [a.arg for a in fdef.args.args]
     for a_, d_ in zip(names[len(names) - len(fdef.args.defaults):], fdef.args.defaults):
@@ -177,6 +182,8 @@ def _run_contract2(contract, mode, size, extra_posts, values, want_paths, exclud
             for nm, f in extra_posts(st2, out[1], ctx):
                 obls.append(Obl("post.%s" % nm, pc2.hyp(), toB(f) if not is_z3(f) else f, 'post', meta=dict(path=nret)))
     stats = dict(paths=len(paths), returning=nret, forks=eng.nforks, pruned=eng.npruned, loops=sorted(eng.loop_cover))
+    if getattr(eng, 'ncut', 0):
+        stats['paths_cut_at_unroll_bound'] = eng.ncut
     if _sym_uf_on():
         from . import ufarith
         obls = [ufarith.instantiate(o, getattr(ctx, 'defs', ())) for o in obls]
